@@ -8,7 +8,7 @@ LEVEL = "other"
 ADAPTERS = {"into_iter", "iter", "collect", "copied", "cloned"}
 
 
-def shape(e, binds):
+def shape(e, binds, whole=()):
     """component shape of an arm body: ('self',) | ('fields',[pos..]) | ('iter',pos) | ('image-insert',ipos,vpos) |
     ('image-iter',ipos,vpos) | ('delegate',fn)"""
     e = strip(e)
@@ -19,7 +19,7 @@ def shape(e, binds):
             v = field_path(s["recv"])
             i = field_path(s["args"][0])
             ph = strip(s["args"][1])
-            tail = shape(e["expr"], binds)
+            tail = shape(e["expr"], binds, whole)
             if v and i and ph["k"] == "Path" and hir.variant_of(ph["path"]) == "Placeholder" and tail == ("iter", binds.index(v[0])):
                 return ("image-insert", binds.index(i[0]), binds.index(v[0]))
         raise Unrecognised("block shape in component arm", e)
@@ -40,7 +40,7 @@ def shape(e, binds):
             out = []
             for x in els:
                 p = field_path(x)
-                if p == ("self",):
+                if p == ("self",) or (p and len(p) == 1 and p[0] in whole):          # `atom @ Term::Atom { .. } => vec![atom]` is `=> vec![self]`
                     return ("self",) if len(els) == 1 else ("?",)
                 if not p or p[0] not in binds:
                     raise Unrecognised("vec! element is not a field", x)
@@ -246,8 +246,14 @@ def run(ctx):
     for v, arm, pat in hir.arms_by_variant(mm[0]):
         names = [fd["name"] for fd in pat.get("fields", [])] if pat["k"] == "Struct" else []
         binds = [fd["pat"].get("name") for fd in pat.get("fields", [])] if pat["k"] == "Struct" else []
+        whole = []
+        q_ = arm["pat"]
+        while q_.get("k") in ("Ref", "Box", "Deref") or (q_.get("k") == "Binding" and q_.get("sub")):
+            if q_["k"] == "Binding":
+                whole.append(q_["name"])
+            q_ = q_["pat"] if q_["k"] != "Binding" else q_["sub"]
         try:
-            sh = shape(arm["body"], binds)
+            sh = shape(arm["body"], binds, tuple(whole))
         except Unrecognised as u:
             ctx.unrecognised("K-LEXICAL", "extract_terms %s" % v, u.what)
             continue
